@@ -603,7 +603,12 @@ func r15_10(c *Ctx, r *Report) {
 	problems := map[string]bool{}
 	n := 0
 	var dayNos []int64
-	for _, w := range [][2]int64{{dayNo(2021, 11, 20), dayNo(2022, 3, 10)}, {dayNo(1582, 9, 10), dayNo(1582, 11, 30)}} {
+	windows := [][2]int64{{dayNo(2021, 11, 20), dayNo(2022, 3, 10)}, {dayNo(1582, 9, 10), dayNo(1582, 11, 30)}}
+	if c.Tier == "thorough" {
+		// two whole years (a leap year among them) and the whole of 1582
+		windows = [][2]int64{{dayNo(2023, 1, 1), dayNo(2024, 12, 31)}, {dayNo(1582, 1, 1), dayNo(1582, 12, 31)}}
+	}
+	for _, w := range windows {
 		for k := w[0]; k <= w[1]; k++ {
 			dayNos = append(dayNos, k)
 		}
